@@ -68,7 +68,7 @@ static std::string record(Ctx& c, const std::string& opv, const GEOSGeometry* A,
     else if (var == "aa") { x = A; y = A; }
     else if (var.size() >= 3 && var.substr(0, 2) == "ae") { e = GEOSGeomFromWKT_r(h, EMPTY_WKT[std::stoi(var.substr(2)) % N_EMPTY]); x = A; y = e; }
     else if (var.size() >= 3 && var.substr(0, 2) == "ea") { e = GEOSGeomFromWKT_r(h, EMPTY_WKT[std::stoi(var.substr(2)) % N_EMPTY]); x = e; y = A; }
-    else if (var == "gab") { GEOSGeometry* parts[2] = {GEOSGeom_clone_r(h, A), GEOSGeom_clone_r(h, B)}; gc = GEOSGeom_createCollection_r(h, geos::geom::GEOS_GEOMETRYCOLLECTION, parts, 2); x = gc; }
+    else if (var == "gab") { GEOSGeometry* parts[2] = {GEOSGeom_clone_r(h, A), GEOSGeom_clone_r(h, B)}; gc = GEOSGeom_createCollection_r(h, 7, parts, 2); x = gc; }
     lastErr.clear();
     GEOSGeometry* r = nullptr;
     if (op == "int") r = GEOSIntersection_r(h, x, y);
@@ -192,7 +192,7 @@ int main(int argc, char** argv) {
                 ops.push_back("clip:a:" + hex(std::min(ax, bx)) + ":" + hex(std::min(ay, by)) + ":" + hex(std::max(ax, bx)) + ":" + hex(std::max(ay, by))); }
         }
         { FILE* cf = std::fopen((std::string(argv[4]) + ".current").c_str(), "w"); if (cf) { std::string s = "O | " + ta + " | " + tb; for (auto& o : ops) s += " | " + o; std::fprintf(cf, "%s\n", s.c_str()); std::fclose(cf); } }
-        if (dbl && !cov && ga->getGeometryTypeId() != geos::geom::GEOS_GEOMETRYCOLLECTION && gb->getGeometryTypeId() != GEOS_GEOMETRYCOLLECTION
+        if (dbl && !cov && ga->getGeometryTypeId() != geos::geom::GEOS_GEOMETRYCOLLECTION && gb->getGeometryTypeId() != geos::geom::GEOS_GEOMETRYCOLLECTION
             && !(ga->getDimension() == 0 || gb->getDimension() == 0)) probeRung(c, ga.get(), gb.get());
         out.emit(caseLine(c, ta, tb, (GEOSGeometry*) ga.get(), (GEOSGeometry*) gb.get(), ops), "ok");
     }
